@@ -17,10 +17,10 @@ theorem recover_events_sound (d : Disk) (h : DiskOk d) (o : Opts) (d' : Disk) (s
 after which the recovery is killed: the disk left behind is again well-formed, a later `Open` succeeds on it and
 serves exactly the content the uninterrupted recovery serves.  The unlink order inside a `RemoveAll` of a table
 directory does not matter: the abstract states complete → part true → part false → gone that `recoverEvents`
-visits, plus the state "metadata file unlinked first, index.rio / data.rio still load: a legacy table showing
-`junks g`" inserted by `detour`, cover every order; in each of them the table is still listed by the flagged
-compaction (deleted again), or is discarded, or — an unfinished table seen as a legacy table — is KEPT by the next
-recovery and shows only keys that the log still binds.  "Same
+visits, plus — for a COMPLETE table — the state "metadata file unlinked first, index.rio / data.rio still load: a
+legacy table showing `junks g`" inserted by `detour`, cover every order; in each of them the table is still listed
+by the flagged compaction (deleted again).  An unfinished table is removed index.rio first: every state on the way
+fails to load and is discarded again.  "Same
 outcome" is the same CONTENT; the table layout may differ (a second recovery may flush the remaining WAL files
 into one more table). -/
 theorem recover_idempotent_under_crash (d : Disk) (h : DiskOk d) (o o' : Opts) (m : Nat) (junks : List (Nat × Layer)) :
@@ -77,19 +77,20 @@ example : (List.range 19).all (fun m =>
     let dm := applyEvs dCompCrash ((recoverEvents dCompCrash).take m)
     decide (DiskOk dm) && ([[1], [2], [3], [9]].map (logical dm) == [some [5], some [2], none, none])) = true := by decide
 
-/-- the residual of the "unfinished table kept as a legacy table" defect that the code still has: recovery removes
-an unfinished table (empty metadata file, complete index / data); if the `RemoveAll` unlinks meta.pb.bin first and
-the process is killed right then, the directory has NO metadata file and loads — the next recovery keeps it as a
-legacy table (here showing `[1] ↦ 0x0707`).  The content served stays right (the log still binds its keys), which is
-all C10 claims; the table itself stays for good. -/
+/-- before commit d2bdde6 recovery removed an unfinished table (empty metadata file, complete index / data) with a
+plain `RemoveAll`: an order that unlinks meta.pb.bin first, killed right then, leaves a directory WITHOUT metadata
+file that loads — the next recovery keeps it as a legacy table (here showing `[1] ↦ 0x0707`).  Now index.rio goes
+first (`removeUnfinishedTable`) and every intermediate state is discarded again. -/
 def dUnfinished : Disk :=
   { tables := [(1, .part false)], walDir := true, wal := [{ num := 0, recs := [.put [1] [9]] }] }
 
-theorem metadata_unlinked_first_keeps_legacy_table :
-    let dm := applyEvs dUnfinished ((recoverEvents dUnfinished [(1, [([1], some [7, 7])])]).take 1)
-    dm.tables = [(1, .complete [([1], some [7, 7])])] ∧ logical dm [1] = some [9] ∧
-      (recover dm).toOption.map (fun r => r.2.tables.map (·.gen)) = some [1, 2] ∧
-      (recover dUnfinished).toOption.map (fun r => r.2.tables.map (·.gen)) = some [1] := by
+theorem prefix_metadata_first_removal_kept_legacy_table :
+    let dOld := applyEv dUnfinished (.tblLoadable 1 [([1], some [7, 7])])     -- pre-fix: metadata unlinked first
+    let dNew := applyEv dUnfinished (.tblUnlinkPart 1 false)                   -- now: index.rio unlinked first
+    dOld.tables = [(1, .complete [([1], some [7, 7])])] ∧ dNew.tables = [(1, .part false)] ∧
+      (recover dOld).toOption.map (fun r => r.2.tables.map (·.gen)) = some [1, 2] ∧
+      (recover dNew).toOption.map (fun r => r.2.tables.map (·.gen)) = some [1] ∧
+      recoverEvents dUnfinished [(1, [([1], some [7, 7])])] = recoverEvents dUnfinished [] := by
   decide
 
 /-- pre-fix D15 (rename BEFORE the other inputs are deleted): the rename takes the flag away, an interruption
